@@ -249,7 +249,11 @@ func resultShapesOf(fn *ssa.Function) []string {
 					cls["const"] = true
 				}
 			default:
-				cls["val"] = true
+				if curWorld != nil && curWorld.isConstTableRead(x) {
+					cls["const"] = true // an entry of a read-only table of constants
+				} else {
+					cls["val"] = true
+				}
 			}
 		}
 		return strings.Join(keys(cls), "/")
